@@ -229,7 +229,7 @@ def _upstream_loop(case, v):
         # the per-case timeout cannot inspect the expression; fall back to the structural over-approximation on the program
         ops = {n['op'] for n in case['prog']['nodes']}
         return bool(ops & {'inflate', 'take', 'diagonalize', 'product', 'det', 'inv'})
-    return 'Inflate' in classes and 'Diagonalize' in classes
+    return 'Diagonalize' in classes and ('Inflate' in classes or 'Take' in classes)   # same structural predicate as the C01 finding
 
 
 TRIGGERS = {'det-of-singular-matrix': _singular_det, 'upstream-C01-inflate-diagonalize': _upstream_loop}
